@@ -345,7 +345,12 @@ def relLoop (W : World) (v : Variant) (first : Nat) : Nat → List Nat → VStat
                 | .error x => .error x
                 | .ok () => relLoop W v first fuel rest { st with policy := some newP }
               else relLoop W v first fuel rest { st with policy := some newP }
-          | none => relLoop W v first fuel rest { st with policy := some newP }
+          | none =>
+            if !v.f4_inRangeNotSelfVerified then
+              match liftP newP.verify with
+              | .error x => .error x
+              | .ok () => relLoop W v first fuel rest { st with policy := some newP }
+            else relLoop W v first fuel rest { st with policy := some newP }
       else if e.ref == attestationsRef then
         match W.attAt j with
         | none => .error .other
